@@ -1,5 +1,6 @@
 import SaphyrVerif.Lemmas.C10
 import SaphyrVerif.Lemmas.C09
+import SaphyrVerif.Lemmas.C10_Gate
 /-!
 # C10 — I/O faults and the input-size cap are never swallowed (reader and writer)
 
@@ -353,6 +354,287 @@ example : (collectAll { reader := [.data [0x25, 0xE2, 0x82, 0xAC, 0x0A, 0x25, 0x
 example : (collectAll { reader := [.data [0x61, 0xE2, 0x82, 0xAC, 0x61]], maxBytes := some 3 }).1 = ['a'] ∧
     (collectAll { reader := [.data [0x61, 0xE2, 0x82, 0xAC, 0x61]], maxBytes := some 3 }).2.cell = some kFileTooLarge ∧
     (collectAll { reader := [.data [0x61, 0xE2, 0x82, 0xAC, 0x61]], maxBytes := some 3 }).2.pulled = 4 := by decide
+
+/-! ### the raw-byte gate in front of the decoder (fix 2cd23fb)
+
+`RawGate` (Model/RawGate.lean) sits between the caller's reader and the external decoder.  The caller's reader is
+a schedule of read results (any chunking, failing calls, empty reads); the consumer — the decoder under
+`BufReader` — is the list `reqs` of the buffer sizes of its `read` calls (never an empty buffer). -/
+
+section Gate
+open SaphyrVerif.Lemmas.C10Gate SaphyrVerif.Spec.Utf16
+
+/-- (T) raw_pull_bound.  For EVERY schedule of the caller's reader, every cap and every sequence of `read` calls
+(empty buffers included): the gate takes at most `cap + 1` bytes from the reader — whatever the encoding is and
+whatever the decoder behind it does — and never hands on more than `cap`.  (`taken` is exactly what the inner
+schedule lost: `raw_taken_is_consumption`.) -/
+theorem raw_pull_bound (sched : Sched) (cap : Nat) (reqs : List Nat) :
+    (Gate.run { inner := sched, limit := some cap } reqs).2.taken ≤ cap + 1 ∧
+    (Gate.run { inner := sched, limit := some cap } reqs).2.pulled ≤ cap := by
+  obtain ⟨_, h2, h3⟩ := run_capInv cap reqs { inner := sched, limit := some cap } ⟨rfl, by simp, by simp⟩
+  refine ⟨?_, h2⟩
+  rw [h3]; split <;> omega
+
+/-- (T) the ghost counter of `raw_pull_bound` is the consumption of the reader: the bytes the schedule still holds
+plus `taken` is constant -/
+theorem raw_taken_is_consumption (sched : Sched) (limit : Option Nat) (reqs : List Nat) :
+    (flat (Gate.run { inner := sched, limit := limit } reqs).2.inner).length +
+      (Gate.run { inner := sched, limit := limit } reqs).2.taken = (flat sched).length := by
+  simpa using run_taken reqs { inner := sched, limit := limit }
+
+/-- (T) raw_gate_transparent_below_cap.  For EVERY schedule (failing calls and empty reads included) whose stream
+has at most `cap` bytes (or with no cap at all) and in which no end-of-input result falls inside a UTF-16
+character (`eofClean`), and every sequence of `read` calls with non-empty buffers: the consumer sees exactly the
+results the reader itself would have given — same bytes in the same pieces, same errors, same `Ok(0)` — and the
+reader is left in the same state. -/
+theorem raw_gate_transparent_below_cap (sched : Sched) (limit : Option Nat) (reqs : List Nat)
+    (hpos : ∀ n ∈ reqs, 0 < n) (hcap : ∀ cap, limit = some cap → (flat sched).length ≤ cap)
+    (hclean : eofClean [] sched = true) :
+    (Gate.run { inner := sched, limit := limit } reqs).1 = (readCalls sched reqs).1 ∧
+    (Gate.run { inner := sched, limit := limit } reqs).2.inner = (readCalls sched reqs).2 := by
+  apply run_transparent reqs { inner := sched, limit := limit } [] hpos
+  · exact ⟨rfl, rfl, fun cap h => by simpa using hcap cap h⟩
+  · exact hclean
+
+/-- (T) input that does not begin with a UTF-16 byte-order mark (UTF-8 with or without its own mark, anything
+shorter than two bytes) satisfies `eofClean` for every schedule: for such input `raw_gate_transparent_below_cap`
+needs the size condition only -/
+theorem not_utf16_is_clean (sched : Sched) (h : bomOf (flat sched) = none) : eofClean [] sched = true :=
+  eofClean_not_utf16 sched [] (by simpa using h)
+
+/-- (T) raw_gate_refuses_above_cap.  The reader delivers MORE than `cap` bytes, in any partition into non-empty
+read results; the consumer makes any `read` calls with non-empty buffers.  Then its results are non-empty pieces
+of the first `cap` bytes followed by `FileTooLarge` forever: never an end of input, never a byte beyond the cap;
+the first refusal comes after exactly the first `cap` bytes, and a consumer that keeps reading (more than `cap`
+calls) does meet it. -/
+theorem raw_gate_refuses_above_cap (sched : Sched) (cap : Nat) (reqs : List Nat) (hc : chunked sched = true)
+    (hpos : ∀ n ∈ reqs, 0 < n) (hlen : cap < (flat sched).length) :
+    ∃ (chunks : List (List Nat)) (m : Nat),
+      (Gate.run { inner := sched, limit := some cap } reqs).1 =
+        chunks.map .ok ++ List.replicate m (.err kFileTooLarge) ∧
+      (∀ c ∈ chunks, c ≠ []) ∧
+      (∃ rest, chunks.flatten ++ rest = (flat sched).take cap ∧ (0 < m → rest = [])) ∧
+      (cap < reqs.length → 0 < m) := by
+  obtain ⟨chunks, m, e1, e2, ⟨rest, e3, e4⟩, e5⟩ :=
+    run_refuses cap reqs { inner := sched, limit := some cap } hpos rfl rfl hc (by simp) (by simpa using hlen)
+  have e3' : chunks.flatten ++ rest = (flat sched).take cap := by simpa using e3
+  refine ⟨chunks, m, e1, e2, ⟨rest, e3', e4⟩, ?_⟩
+  intro hlong
+  have h1 := length_le_flatten chunks e2
+  have h2 : chunks.flatten.length ≤ cap := by
+    have := congrArg List.length e3'
+    rw [List.length_append, List.length_take, Nat.min_eq_left (Nat.le_of_lt hlen)] at this
+    omega
+  omega
+
+/-- (T) utf16_truncation_is_error.  The raw input (delivered in any partition into non-empty read results, under
+no cap or a cap it fits) starts with a UTF-16 mark and ends inside a character (`endsInsideChar`: an odd number of
+bytes after the mark, or a high surrogate as last code unit).  Then the consumer gets the bytes in non-empty
+pieces and after them `UnexpectedEof` on every call — never `Ok(0)`: the decoder is not told "end of input", so
+it cannot flush a U+FFFD for the incomplete character as if the text were complete. -/
+theorem utf16_truncation_is_error (sched : Sched) (limit : Option Nat) (reqs : List Nat) (hc : chunked sched = true)
+    (hpos : ∀ n ∈ reqs, 0 < n) (hcap : ∀ cap, limit = some cap → (flat sched).length ≤ cap)
+    (hcut : endsInsideChar (flat sched) = true) :
+    ∃ (chunks : List (List Nat)) (m : Nat),
+      (Gate.run { inner := sched, limit := limit } reqs).1 =
+        chunks.map .ok ++ List.replicate m (.err kUnexpectedEof) ∧
+      (∀ c ∈ chunks, c ≠ []) ∧
+      (∃ rest, chunks.flatten ++ rest = flat sched ∧ (0 < m → rest = [])) ∧
+      ((flat sched).length < reqs.length → 0 < m) := by
+  obtain ⟨chunks, m, e1, e2, ⟨rest, e3, e4⟩, e5⟩ :=
+    run_truncated reqs { inner := sched, limit := limit } [] hpos
+      ⟨rfl, rfl, fun cap h => by simpa using hcap cap h⟩ hc (by simpa using hcut)
+  refine ⟨chunks, m, e1, e2, ⟨rest, e3, e4⟩, ?_⟩
+  intro hlong
+  have h1 := length_le_flatten chunks e2
+  have h2 : chunks.flatten.length ≤ (flat sched).length := by
+    have := congrArg List.length e3
+    rw [List.length_append] at this
+    change _ = (flat sched).length at this
+    omega
+  omega
+
+/-- (T) the flag `RawGate::at_end` tests IS the predicate, for every byte string and every way of handing it on
+in pieces: after a fresh gate has noted `chunks.flatten`, `insideChar` = `endsInsideChar (chunks.flatten)` -/
+theorem gate_flag_is_predicate (chunks : List (List Nat)) :
+    (chunks.foldl (fun g c => g.noteAll c) ({ inner := [] } : Gate)).insideChar = endsInsideChar chunks.flatten := by
+  have : ∀ (cs : List (List Nat)) (g : Gate), cs.foldl (fun g c => g.noteAll c) g = g.noteAll cs.flatten := by
+    intro cs
+    induction cs with
+    | nil => intro g; rfl
+    | cons c cs ih => intro g; simp only [List.foldl_cons, List.flatten_cons, noteAll_append]; exact ih _
+  rw [this]
+  exact flag_eq_spec _ _ rfl
+
+/-- (T) which cut positions are "inside a character": the raw bytes of a UTF-16 text (`encode be us` = mark ++ code
+units, LE or BE) cut `q` bytes after the mark.  An odd `q` is inside a code unit; `q = 2·(i+1)` is inside a
+character exactly when the unit `us[i]` before the cut is a high surrogate; the complete text is inside a
+character exactly when its last unit is a high surrogate. -/
+theorem utf16_cut_positions (be : Bool) (us : List Nat) :
+    (∀ q, q ≤ 2 * us.length → q % 2 = 1 → endsInsideChar ((encode be us).take (2 + q)) = true) ∧
+    (∀ i u, us[i]? = some u → endsInsideChar ((encode be us).take (2 + 2 * (i + 1))) = isHigh u) ∧
+    (endsInsideChar (encode be us) = true ↔ ∃ u, us.getLast? = some u ∧ isHigh u = true) := by
+  have htake : ∀ q, (encode be us).take (2 + q) =
+      (if be then [0xFE, 0xFF] else [0xFF, 0xFE]) ++ (us.flatMap (unitBytes be)).take q := by
+    intro q
+    unfold encode
+    rw [show 2 + q = q + 1 + 1 by omega]
+    cases be <;> simp [List.take_succ_cons]
+  refine ⟨?_, ?_, ?_⟩
+  · intro q hq hodd
+    rw [htake, endsInsideChar_bom_append]
+    exact cut_odd be _ q (by rw [flatMap_length]; exact hq) hodd
+  · intro i u hu
+    rw [htake, endsInsideChar_bom_append]
+    exact cut_after_unit be us i u hu
+  · unfold encode
+    rw [endsInsideChar_bom_append]
+    exact cut_complete be us
+
+/-- (T) utf16_complete_is_clean.  A complete UTF-16 text (an even number of bytes after the mark, no dangling high
+surrogate at the end), delivered with any chunking and any failing calls (no empty reads), under no cap or a cap
+it fits, passes the gate unchanged: the consumer sees the reader's own results. -/
+theorem utf16_complete_is_clean (be : Bool) (us : List Nat) (sched : Sched) (limit : Option Nat) (reqs : List Nat)
+    (hne : noEmpty sched = true) (hflat : flat sched = encode be us)
+    (hlast : ∀ u, us.getLast? = some u → isHigh u = false)
+    (hpos : ∀ n ∈ reqs, 0 < n) (hcap : ∀ cap, limit = some cap → (flat sched).length ≤ cap) :
+    (Gate.run { inner := sched, limit := limit } reqs).1 = (readCalls sched reqs).1 := by
+  refine (raw_gate_transparent_below_cap sched limit reqs hpos hcap ?_).1
+  rw [eofClean_noEmpty sched [] hne, List.nil_append, hflat]
+  cases h : endsInsideChar (encode be us) with
+  | false => rfl
+  | true =>
+    obtain ⟨u, hu, hh⟩ := (utf16_cut_positions be us).2.2.1 h
+    rw [hlast u hu] at hh; cases hh
+
+/-- (T) the gate's own errors are errors of the "underlying reader" in the sense of `reader_fault_sets_cell` /
+`fault_surfaces_single` / `fault_surfaces_iter`: every error result of the gate is either the inner reader's own
+error, passed on unchanged, or one of the two hard kinds `FileTooLarge` / `UnexpectedEof` — never an `Interrupted`
+of its own making, which `ChunkedChars` would retry. -/
+theorem gate_error_origin (g : Gate) (n : Nat) (k : IoKind) (h : (g.read n).1 = .err k) :
+    (∃ want s, readCall want g.inner = (.err k, s)) ∨ k = kFileTooLarge ∨ k = kUnexpectedEof := by
+  by_cases hn : n = 0
+  · subst hn; simp [Gate.read] at h
+  · have hplain : ∀ want, (g.plain want).1 = .err k →
+        (∃ want s, readCall want g.inner = (.err k, s)) ∨ k = kFileTooLarge ∨ k = kUnexpectedEof := by
+      intro want hp
+      rcases plain_spec g want with ⟨k', s, hrc, he⟩ | ⟨s, _, he⟩ | ⟨b, bs, s, _, he⟩
+      · rw [he] at hp; simp at hp; subst hp; exact Or.inl ⟨want, s, hrc⟩
+      · rw [he] at hp
+        simp only [Gate.atEnd] at hp
+        split at hp
+        · simp at hp; exact Or.inr (Or.inr hp.symm)
+        · simp at hp
+      · rw [he] at hp; simp at hp
+    rcases read_paths g n (by omega) with ⟨l, _, _, hr⟩ | ⟨_, hr⟩ | ⟨l, _, _, _, hr⟩ | ⟨l, _, _, _, hr⟩
+    · rw [hr] at h; simp at h; exact Or.inr (Or.inl h.symm)
+    · rw [hr] at h; exact hplain _ h
+    · rw [hr] at h; exact hplain _ h
+    · rw [hr] at h
+      rcases probe_spec g with ⟨k', s, hrc, he⟩ | ⟨s, _, he⟩ | ⟨b, s, _, he⟩
+      · rw [he] at h; simp at h; subst h; exact Or.inl ⟨1, s, hrc⟩
+      · rw [he] at h
+        simp only [Gate.atEnd] at h
+        split at h
+        · simp at h; exact Or.inr (Or.inr h.symm)
+        · simp at h
+      · rw [he] at h; simp at h; exact Or.inr (Or.inl h.symm)
+
+/-- (T) gate_fault_reaches_cell: `reader_fault_sets_cell` applies verbatim to the gate's two errors.  Whatever the
+layers between the gate and `ChunkedChars` delivered before (any non-empty read results `pre`: the decoded text so
+far), a failing call with the gate's `FileTooLarge` or `UnexpectedEof` leaves the shared cell set by the time
+`ChunkedChars` reports the end — and then `fault_surfaces_single` / `fault_surfaces_iter` give `Err`. -/
+theorem gate_fault_reaches_cell (pre post : Sched) (k : IoKind) (hc : chunked pre = true)
+    (hk : k = kFileTooLarge ∨ k = kUnexpectedEof) :
+    (collectAll { reader := pre ++ .fail k :: post }).2.cell ≠ none := by
+  apply reader_fault_sets_cell pre post k hc
+  rcases hk with rfl | rfl <;> decide
+
+/-- (T) the composition on the decoder's pass-through path (UTF-8 without a mark: decoder and `BufReader` hand the
+gate's results on as they are): an input of more than `cap` raw bytes, read by `ChunkedChars` through the gate with
+more than `cap` calls, ends with the cell set — by `fault_surfaces_single` the call returns `Err`. -/
+theorem gate_cap_refusal_recorded (sched : Sched) (cap : Nat) (reqs : List Nat) (hc : chunked sched = true)
+    (hpos : ∀ n ∈ reqs, 0 < n) (hlen : cap < (flat sched).length) (hlong : cap < reqs.length) :
+    (collectAll { reader := asSched (Gate.run { inner := sched, limit := some cap } reqs).1 }).2.cell ≠ none := by
+  obtain ⟨chunks, m, e1, e2, _, e4⟩ := raw_gate_refuses_above_cap sched cap reqs hc hpos hlen
+  obtain ⟨m', rfl⟩ : ∃ m', m = m' + 1 := ⟨m - 1, by have := e4 hlong; omega⟩
+  rw [e1, asSched_oks_errs]
+  exact gate_fault_reaches_cell _ _ _ (chunked_map_data chunks e2) (Or.inl rfl)
+
+/-- (T) raw_gate_drained: the consumer of the differential run (`Gate.drain`: buffers of `n > 0` bytes until the
+first end of input or hard error — the `iofault gate` answers of the model driver) over a reader that delivers its
+bytes in any partition into non-empty read results.  More than `cap` bytes: exactly the first `cap` bytes, then
+`FileTooLarge`, exactly `cap + 1` bytes taken.  At most `cap` bytes (or no cap): all bytes, all of them taken, and
+the end is `UnexpectedEof` exactly when the input ends inside a UTF-16 character, a clean end otherwise. -/
+theorem raw_gate_drained (sched : Sched) (n fuel : Nat) (hn : 0 < n) (hc : chunked sched = true) :
+    (∀ cap, cap < (flat sched).length → cap < fuel →
+      Gate.drain n fuel { inner := sched, limit := some cap } =
+        ((flat sched).take cap, some kFileTooLarge, (Gate.drain n fuel { inner := sched, limit := some cap }).2.2) ∧
+      (Gate.drain n fuel { inner := sched, limit := some cap }).2.2.taken = cap + 1) ∧
+    (∀ limit, (∀ cap, limit = some cap → (flat sched).length ≤ cap) → (flat sched).length < fuel →
+      Gate.drain n fuel { inner := sched, limit := limit } =
+        (flat sched, if endsInsideChar (flat sched) then some kUnexpectedEof else none,
+          (Gate.drain n fuel { inner := sched, limit := limit }).2.2) ∧
+      (Gate.drain n fuel { inner := sched, limit := limit }).2.2.taken = (flat sched).length) := by
+  constructor
+  · intro cap hlen hf
+    obtain ⟨a, b, c⟩ := drain_refuses cap n hn fuel { inner := sched, limit := some cap } rfl rfl hc (by simp)
+      (by simpa using hlen) (by simpa using hf)
+    refine ⟨?_, by simpa using c⟩
+    apply Prod.ext
+    · simpa using a
+    · apply Prod.ext
+      · exact b
+      · rfl
+  · intro limit hcap hf
+    obtain ⟨a, b, c⟩ := drain_to_end n hn fuel { inner := sched, limit := limit } []
+      ⟨rfl, rfl, fun cap h => by simpa using hcap cap h⟩ hc hf
+    refine ⟨?_, by simpa using c⟩
+    apply Prod.ext
+    · exact a
+    · apply Prod.ext
+      · simpa using b
+      · rfl
+
+/-- (E) `a: xyz` in UTF-16LE minus its last byte (the former witness), read in 1-byte pieces with 4-byte buffers:
+13 bytes, then `UnexpectedEof` on every further call -/
+example : (Gate.run { inner := [.data [0xFF], .data [0xFE, 0x61], .data [0, 0x3A, 0, 0x20, 0, 0x78, 0, 0x79, 0, 0x7A]] }
+    [4, 4, 4, 4, 4, 4, 4]).1 =
+    [.ok [0xFF], .ok [0xFE, 0x61], .ok [0, 0x3A, 0, 0x20], .ok [0, 0x78, 0, 0x79], .ok [0, 0x7A],
+     .err kUnexpectedEof, .err kUnexpectedEof] := by decide
+/-- (E) the complete text is clean; cut after the high half of U+1F600 (`3D D8 | 00 DE`, LE and BE) it is not -/
+example : endsInsideChar [0xFF, 0xFE, 0x61, 0, 0x3D, 0xD8, 0x00, 0xDE] = false ∧
+    endsInsideChar [0xFF, 0xFE, 0x61, 0, 0x3D, 0xD8] = true ∧
+    endsInsideChar [0xFE, 0xFF, 0, 0x61, 0xD8, 0x3D] = true ∧
+    endsInsideChar [0xFE, 0xFF, 0, 0x61, 0xD8, 0x3D, 0xDE] = true ∧
+    endsInsideChar [0xEF, 0xBB, 0xBF, 0xC3] = false := by decide
+/-- (E) `encode` / cut positions on a non-trivial instance: `a😀` -/
+example : encode false [0x61, 0xD83D, 0xDE00] = [0xFF, 0xFE, 0x61, 0, 0x3D, 0xD8, 0x00, 0xDE] ∧
+    endsInsideChar ((encode true [0x61, 0xD83D, 0xDE00]).take (2 + 2 * (1 + 1))) = isHigh 0xD83D := by decide
+/-- (E) the cap: 5 raw bytes under cap 3 (reader gives 2-byte pieces): 3 bytes, `FileTooLarge`, 4 bytes taken;
+under cap 5 the same reader passes unchanged and the probe sees the end of input -/
+example : (Gate.run { inner := [.data [1, 2], .data [3, 4], .data [5]], limit := some 3 } [8, 8, 8, 8]).1 =
+      [.ok [1, 2], .ok [3], .err kFileTooLarge, .err kFileTooLarge] ∧
+    (Gate.run { inner := [.data [1, 2], .data [3, 4], .data [5]], limit := some 3 } [8, 8, 8, 8]).2.taken = 4 ∧
+    (Gate.run { inner := [.data [1, 2], .data [3, 4], .data [5]], limit := some 5 } [8, 8, 8, 8]).1 =
+      [.ok [1, 2], .ok [3, 4], .ok [5], .ok []] ∧
+    (Gate.run { inner := [.data [1, 2], .data [3, 4], .data [5]], limit := some 5 } [8, 8, 8, 8]).2.taken = 5 := by decide
+/-- (E) hypotheses of the transparency theorem on a schedule with a failing call and an empty read -/
+example : eofClean [] [.data [0x61], .fail kInterrupted, .data [], .data [0x62]] = true ∧
+    (Gate.run { inner := [.data [0x61], .fail kInterrupted, .data [], .data [0x62]], limit := some 2 } [4, 4, 4, 4, 4]).1 =
+      (readCalls [.data [0x61], .fail kInterrupted, .data [], .data [0x62]] [4, 4, 4, 4, 4]).1 := by decide
+/-- (E) `ChunkedChars` behind the gate on the pass-through path: `ab€` (5 bytes) under cap 3 ends with `FileTooLarge`
+in the cell after `ab` -/
+example : (collectAll { reader := asSched (Gate.run { inner := [.data [0x61, 0x62, 0xE2, 0x82, 0xAC]], limit := some 3 } [8, 8, 8, 8]).1 }).1 = ['a', 'b'] ∧
+    (collectAll { reader := asSched (Gate.run { inner := [.data [0x61, 0x62, 0xE2, 0x82, 0xAC]], limit := some 3 } [8, 8, 8, 8]).1 }).2.cell = some kFileTooLarge := by decide
+/-- (E) the draining consumer on the former witnesses: truncated UTF-16 and a UTF-16 input of 14 raw bytes under
+cap 7 (its 6 decoded bytes would fit) -/
+example : (Gate.drain 8192 20 { inner := [.data [0xFF, 0xFE, 0x61, 0, 0x3A, 0, 0x20, 0, 0x78, 0, 0x79, 0, 0x7A]] }).2.1 = some kUnexpectedEof ∧
+    (Gate.drain 8192 20 { inner := [.data [0xFF, 0xFE, 0x61, 0, 0x3A, 0, 0x20, 0, 0x78, 0, 0x79, 0, 0x7A, 0]], limit := some 7 }).2.1 = some kFileTooLarge ∧
+    (Gate.drain 8192 20 { inner := [.data [0xFF, 0xFE, 0x61, 0, 0x3A, 0, 0x20, 0, 0x78, 0, 0x79, 0, 0x7A, 0]], limit := some 7 }).2.2.taken = 8 ∧
+    (Gate.drain 8192 20 { inner := [.data [0xFF, 0xFE, 0x61, 0, 0x3A, 0, 0x20, 0, 0x78, 0, 0x79, 0, 0x7A, 0]], limit := some 14 }).2.1 = none := by decide
+
+end Gate
 
 /-! ### writer -/
 
